@@ -28,11 +28,20 @@ fn model_bytes() -> Vec<u8> {
     std::fs::read(concat!(env!("CARGO_MANIFEST_DIR"), "/../../repo/resources/model.bin")).or_else(|_| std::fs::read("/repo/resources/model.bin")).unwrap()
 }
 
-fn write_model() -> std::path::PathBuf {
-    let p = work_dir().join("model.zst");
+/// the shipped model with its tag models removed (a predictor built from it has no tag categories at all)
+fn tagless_model_bytes() -> Vec<u8> {
+    let mut md = crate::gen::ModelData::from_bytes(&model_bytes()).unwrap();
+    md.tag_models.clear();
+    md.to_bytes()
+}
+
+fn write_model() -> std::path::PathBuf { write_model_of(false) }
+
+fn write_model_of(tagless: bool) -> std::path::PathBuf {
+    let p = work_dir().join(if tagless { "model_tagless.zst" } else { "model.zst" });
     let f = std::fs::File::create(&p).unwrap();
     let mut e = zstd::Encoder::new(f, 3).unwrap();
-    e.write_all(&model_bytes()).unwrap();
+    e.write_all(&if tagless { tagless_model_bytes() } else { model_bytes() }).unwrap();
     e.finish().unwrap();
     p
 }
@@ -178,16 +187,26 @@ fn check_predict(code: usize) -> Option<String> {
 // (a sentence whose LAST word the model gets wrong is followed by sentences whose first word it gets right, and the other way round)
 const GOLD: [&str; 9] = ["まぁ/名詞/マー 社長/名詞/シャチョー は/助詞/ワ 火星/名詞/カセー 猫/名詞/ネコ だ/助動詞/ダ", "", "火星 猫だ", "まぁ 良い だろう", "火星 に 行き まし た", "１２ 個 の ABC", "x", "まぁ良い だろう", "火星 猫 だ"];
 
-fn expected_evaluate(no_norm: bool, tags: bool, word: bool, ws: &[&str]) -> String {
-    let (m, _) = Model::read_slice(&model_bytes()).unwrap();
+/// the reference lines: GOLD plus (long = true) one line of 190,000 characters -- a document without line
+/// breaks; every one of its four per-line counts exceeds 16 bits
+fn gold_lines(long: bool) -> Vec<String> {
+    let mut v: Vec<String> = GOLD.iter().map(|l| l.to_string()).collect();
+    if long {
+        v.push(vec!["火星 猫だ まぁ 良い だろう 火星 に 行き まし た"; 10000].join(" ")); // 190,000 characters, 100,000 word boundaries
+    }
+    v
+}
+
+fn expected_evaluate(no_norm: bool, tags: bool, word: bool, ws: &[&str], tagless: bool, long: bool) -> String {
+    let (m, _) = Model::read_slice(&if tagless { tagless_model_bytes() } else { model_bytes() }).unwrap();
     let p = Predictor::new(m, tags).unwrap();
     let (mut tp, mut tn, mut fp, mut fnn) = (0i32, 0i32, 0i32, 0i32);
     let (mut n_sys, mut n_ref, mut n_cor) = (0i32, 0i32, 0i32);
-    for line in GOLD {
+    for line in gold_lines(long) {
         if line.is_empty() {
             continue;
         }
-        let gold = Sentence::from_tokenized(line).unwrap();
+        let gold = Sentence::from_tokenized(line.as_str()).unwrap();
         let sys = pipeline(&p, gold.as_raw_text(), no_norm, tags, ws).unwrap();
         let n = gold.boundaries().len() + 1;
         // character level: every boundary is a binary decision
@@ -231,14 +250,16 @@ fn expected_evaluate(no_norm: bool, tags: bool, word: bool, ws: &[&str]) -> Stri
 }
 
 fn check_evaluate(code: usize) -> Option<String> {
-    let (no_norm, tags, word, w) = (code & 1 != 0, code & 2 != 0, code & 4 != 0, (code >> 3) & 3);
-    let model = write_model();
+    // bit 5: the model WITHOUT tag models (reference tags must never be taken for predicted ones, whatever the flags);
+    // bit 6: the reference additionally holds one line of 190,000 characters
+    let (no_norm, tags, word, w, tagless, long) = (code & 1 != 0, code & 2 != 0, code & 4 != 0, (code >> 3) & 3, code & 32 != 0, code & 64 != 0);
+    let model = write_model_of(tagless);
     let mut args = vec!["--model".to_string(), model.to_string_lossy().to_string(), "--metric".into(), if word { "word".into() } else { "char".into() }];
     if no_norm { args.push("--no-norm".into()); }
     if tags { args.push("--predict-tags".into()); }
     for x in WSCONST[w] { args.push("--wsconst".into()); args.push(x.to_string()); }
-    let stdin: String = GOLD.iter().map(|l| format!("{}\n", l)).collect();
-    let want = expected_evaluate(no_norm, tags, word, WSCONST[w]);
+    let stdin: String = gold_lines(long).iter().map(|l| format!("{}\n", l)).collect();
+    let want = expected_evaluate(no_norm, tags, word, WSCONST[w], tagless, long);
     match run("evaluate", &args, &stdin) {
         Err(e) => Some(format!("evaluate {:?}: {}", &args[2..], e)),
         Ok(got) => {
@@ -268,7 +289,9 @@ pub fn search() -> Option<String> {
             return Some(d);
         }
     }
-    for code in 0..32 {
+    // all 32 flag combinations on the shipped model, the first 8 (no filter) also on the model without tag models, and
+    // 4 of them with the very long reference line
+    for code in (0..32).chain(32..40).chain([64, 65, 68, 66 + 32]) {
         if let Some(d) = check("e", code) {
             return Some(d);
         }
